@@ -130,7 +130,7 @@ theorem assign_independent_stmt (G : Growth) (st st1 st2 : St) (ld ls : LExp) (d
     (ha : sopY share G false st (.assign ld (.load ls)) = .ok st1)
     (hw : st1.write ⟨src.cell, src.path ++ p⟩ w = .ok st2) :
     st2.read dst = .ok v := by
-  have hcl : sopClass false (.assign ld (.load ls)) = none := by cases ld <;> simp [sopClass, isStructLit]
+  have hcl : sopClass false (.assign ld (.load ls)) = none := by simp [sopClass]
   rw [sopY_spec G st _ false false (fun e => by cases e) hcl] at ha
   simp only [Spec.sop, Spec.assign, Spec.evalR, hrd, hrs, hv, bind, Except.bind] at ha
   unfold St.write at ha hw
@@ -267,9 +267,7 @@ theorem multiassign_two_phase (st st1 : St) (l1 l2 : LExp) (d1 d2 : Loc) (v1 v2 
     (hdis : Loc.disjoint d1 d2 = true)
     (hm : multiY share st [l1, l2] [.load l2, .load l1] = .ok st1) :
     st1.read d1 = .ok v2 ∧ st1.read d2 = .ok v1 := by
-  have hns : multiHasShortcut [l1, l2] [.load l2, .load l1] = false := by
-    simp [multiHasShortcut, pairShortcut, isCallExp, isCompositeLit, isStructLit, isArrayLit]
-  rw [multiY_spec st _ _ hns] at hm
+  rw [multiY_spec st _ _] at hm
   simp only [Spec.multi, resolveAll, Spec.evalAll, Spec.evalR, h1, h2, hv1, hv2, writeAll, bind, Except.bind] at hm
   unfold St.write at hm
   cases ha : writeLoc st.cells d1 v2 with
@@ -366,41 +364,53 @@ theorem call_args_copied_example :
 
 /-! ### what `Dom` excludes is real: one witness per class (the replay inputs of the listed findings) -/
 
-/-- F21 `a := 1; a, c := 2, a` -/
+/-- F21 `a := 1; a, c := 2, a` — formerly: the multi-DEFINE branch of `assign` stored sequentially and c got the NEW a;
+    repaired by commit 3e30c22 of the repository (all sources are read before any destination is set) -/
 def progF21 : List Op :=
   [.s (.define 1 (.lit (.int 1))),
    .s (.multidef [1, 2] [true, false] [.int 0, .int 0] [.lit (.int 2), .load (.var 1)]),
    .s (.show [1, 2])]
 
-/-- F21: the multi-DEFINE branch of `assign` stores sequentially: c gets the NEW a -/
-theorem multidefine_not_two_phase_witness :
-    Dom progF21 = false ∧ classOf progF21 = some "multidefine-sequential" ∧
-    obsOf (runY share G0 St.empty progF21) = ⟨["v1=2 v2=2"], "ok"⟩ ∧
+/-- with the facts of the repaired source the model prints what Go prints (the program is still outside `Dom`: a is
+    only redeclared, see `multidefine_redeclared_witness`) -/
+theorem multidefine_two_phase_fixed :
+    obsOf (runY share G0 St.empty progF21) = ⟨["v1=2 v2=1"], "ok"⟩ ∧
     obsOf (Spec.runGo G0 St.empty progF21) = ⟨["v1=2 v2=1"], "ok"⟩ := by decide
 
-/-- `a, b := 1, 2; a, b = id(b), id(a)`: a multi-assign whose right-hand sides are calls is not two-phase -/
+/-- … and with the sequential shape (the source before 3e30c22) the model reproduces F21: c = 2 -/
+theorem fact_multiDefineTemps_matters :
+    obsOf (runY { share with multiDefineTemps := false } G0 St.empty progF21) = ⟨["v1=2 v2=2"], "ok"⟩ := by decide
+
+/-- `a, b := 1, 2; a, b = id(b), id(a)` — formerly finding F04-1 (a multi-assign whose right-hand sides are calls
+    was not two-phase: 2 2), repaired by commit 647e2cf of the repository -/
 def progCallSwap : List Op :=
   [.s (.define 1 (.lit (.int 1))), .s (.define 2 (.lit (.int 2))),
    .s (.multi [.var 1, .var 2] [.idcall (.load (.var 2)), .idcall (.load (.var 1))]),
    .s (.show [1, 2])]
 
-theorem multi_shortcut_witness :
-    Dom progCallSwap = false ∧ classOf progCallSwap = some "multi-shortcut" ∧
-    obsOf (runY share G0 St.empty progCallSwap) = ⟨["v1=2 v2=2"], "ok"⟩ ∧
-    obsOf (Spec.runGo G0 St.empty progCallSwap) = ⟨["v1=2 v2=1"], "ok"⟩ := by decide
-
-/-- `a, c := 1, 5; a, b = id(b), c`: … and the assignments that are not calls are dropped altogether -/
+/-- `a, c := 1, 5; a, b = id(b), c` — formerly: the assignments that are not calls were dropped (b stayed 2) -/
 def progCallDrop : List Op :=
   [.s (.define 1 (.lit (.int 1))), .s (.define 2 (.lit (.int 2))), .s (.define 3 (.lit (.int 5))),
    .s (.multi [.var 1, .var 2] [.idcall (.load (.var 2)), .load (.var 3)]),
    .s (.show [1, 2])]
 
-theorem multi_shortcut_drop_witness :
-    obsOf (runY share G0 St.empty progCallDrop) = ⟨["v1=2 v2=2"], "ok"⟩ ∧
+/-- with the facts of the repaired source both programs are inside `Dom` and the model gives what Go gives -/
+theorem multi_shortcut_fixed :
+    Dom progCallSwap = true ∧ Dom progCallDrop = true ∧
+    obsOf (runY share G0 St.empty progCallSwap) = ⟨["v1=2 v2=1"], "ok"⟩ ∧
+    obsOf (runY share G0 St.empty progCallDrop) = ⟨["v1=2 v2=5"], "ok"⟩ := by decide
+
+/-- … and without the guard arm of cfg.go (the source before 647e2cf) the model reproduces the old divergence:
+    2 2 for the swap, b unchanged for the mixed statement -/
+theorem fact_shortcutGuardsSingle_matters :
+    obsOf (runY { share with shortcutGuardsSingle := false } G0 St.empty progCallSwap) = ⟨["v1=2 v2=2"], "ok"⟩ ∧
+    obsOf (runY { share with shortcutGuardsSingle := false } G0 St.empty progCallDrop) = ⟨["v1=2 v2=2"], "ok"⟩ ∧
+    obsOf (Spec.runGo G0 St.empty progCallSwap) = ⟨["v1=2 v2=1"], "ok"⟩ ∧
     obsOf (Spec.runGo G0 St.empty progCallDrop) = ⟨["v1=2 v2=5"], "ok"⟩ := by decide
 
-/-- `p := P{1,2}; q := &p; p = P{0,-7}; p.X = q.X`: a struct literal assigned to a variable whose address was
-    taken rebinds the variable instead of storing through it -/
+/-- `p := P{1,2}; q := &p; p = P{0,-7}; p.X = q.X` — formerly finding F04-2 (a struct literal assigned to a variable
+    whose address was taken rebound the variable instead of storing through it: {1 -7} {1 2}); repaired by commit
+    3590fb8 of the repository -/
 def progStructLit : List Op :=
   [.s (.define 1 (.lit (.str (.cons (.int 1) (.cons (.int 2) .nil))))),
    .s (.define 2 (.addr (.var 1))),
@@ -408,21 +418,44 @@ def progStructLit : List Op :=
    .s (.assign (.field (.var 1) 0) (.load (.field (.var 2) 0))),
    .s (.show [1, 2])]
 
-theorem struct_lit_rebind_witness :
-    Dom progStructLit = false ∧ classOf progStructLit = some "struct-lit-assign" ∧
-    obsOf (runY share G0 St.empty progStructLit) = ⟨["v1={1,-7} v2=&{1,2}"], "ok"⟩ ∧
+theorem struct_lit_assign_fixed :
+    Dom progStructLit = true ∧
+    obsOf (runY share G0 St.empty progStructLit) = ⟨["v1={0,-7} v2=&{0,-7}"], "ok"⟩ := by decide
+
+/-- … and without doComposite's arm for plain assignments (the source before 3590fb8) the model reproduces it -/
+theorem fact_structLitAssignSets_matters :
+    obsOf (runY { share with structLitAssignSets := false } G0 St.empty progStructLit) = ⟨["v1={1,-7} v2=&{1,2}"], "ok"⟩ ∧
     obsOf (Spec.runGo G0 St.empty progStructLit) = ⟨["v1={0,-7} v2=&{0,-7}"], "ok"⟩ := by decide
 
-/-- `for _, k := range []int{1,2,1} { r, ok := m[k]; … }` with m = {1: 1}: a missing key leaves r untouched -/
+/-- `for _, k := range []int{1,2,1} { r, ok := m[k]; … }` with m = {1: 1} — formerly finding F04-3 (a missing key
+    left r untouched: 1 1 1); repaired by commit 6b8d7ae of the repository (the zero value is stored) -/
 def progLookup2 : List Op :=
   [.s (.define 1 (.mkmap (.cons (.str (.cons (.int 1) (.cons (.int 1) .nil))) .nil))),
    .s (.define 2 (.mkslice (.cons (.int 1) (.cons (.int 2) (.cons (.int 1) .nil))))),
    .range (.var 2) 3 4 [.lookup2 true 5 6 (.var 1) (.var 4) (.int 0), .show [5, 6]]]
 
-theorem lookup2_stale_witness :
-    Dom progLookup2 = false ∧ classOf progLookup2 = some "lookup2-stale" ∧
-    obsOf (runY share G0 St.empty progLookup2) = ⟨["v5=1 v6=1", "v5=1 v6=0", "v5=1 v6=1"], "ok"⟩ ∧
+theorem lookup2_zero_fixed :
+    obsOf (runY share G0 St.empty progLookup2) = ⟨["v5=1 v6=1", "v5=0 v6=0", "v5=1 v6=1"], "ok"⟩ ∧
     obsOf (Spec.runGo G0 St.empty progLookup2) = ⟨["v5=1 v6=1", "v5=0 v6=0", "v5=1 v6=1"], "ok"⟩ := by decide
+
+theorem fact_lookup2OnlyIfValid_matters :
+    obsOf (runY { share with lookup2OnlyIfValid := true } G0 St.empty progLookup2)
+      = ⟨["v5=1 v6=1", "v5=1 v6=0", "v5=1 v6=1"], "ok"⟩ := by decide
+
+/-- what remains of it: `r, ok := m[k]` in a loop body does not declare a new r per iteration — visible when the
+    address of r escapes: `for _, k := range []int{1,2,1} { r, ok := m[k]; ps = append(ps, &r) }` -/
+def progLookup2Loop : List Op :=
+  [.s (.define 1 (.mkmap (.cons (.str (.cons (.int 1) (.cons (.int 1) .nil))) .nil))),
+   .s (.define 2 (.mkslice (.cons (.int 1) (.cons (.int 2) (.cons (.int 1) .nil))))),
+   .s (.define 7 (.mkslice .nil)),
+   .range (.var 2) 3 4 [.lookup2 true 5 6 (.var 1) (.var 4) (.int 0),
+                        .append false (.var 7) (.load (.var 7)) [.addr (.var 5)] .nil 8 false],
+   .s (.show [7])]
+
+theorem lookup2_define_in_loop_witness :
+    Dom progLookup2Loop = false ∧ classOf progLookup2Loop = some "lookup2-define-in-loop" ∧
+    obsOf (runY share G0 St.empty progLookup2Loop) = ⟨["v7=s3/4[&1,&1,&1]"], "ok"⟩ ∧
+    obsOf (Spec.runGo G0 St.empty progLookup2Loop) = ⟨["v7=s3/4[&1,&0,&1]"], "ok"⟩ := by decide
 
 /-- `for _, e := range [2]int{1,2} { v := [1]int{7}; p = append(p, &v) }; *p[0] += 100`: an array literal
     declared in a loop body is stored through the cell of the previous iteration -/
@@ -464,7 +497,7 @@ theorem append_alias_witness :
 
 theorem C04_full_statement_fails : ¬ C04_full_statement := by
   intro h
-  have := h G0 progF21
+  have := h G0 progRedecl
   revert this
   decide
 
